@@ -125,7 +125,7 @@ def draw_chain(draw):
         common = [c for c in cols_now if c in ocols and not sch.cols[c]["null"] and not sch.cols[c]["zn"] and sch.cols[c]["type"] != "bool"]
         if common:
             k = g.subset(common, lo=1, hi=2)
-            steps.append({"op": "natural_join", "other": other, "on": [[c, c] for c in k], "jointype": g.pick(["inner", "left"]), "check": g.pick([True, True, "by"])})
+            steps.append({"op": "natural_join", "other": other, "on": [[c, c] for c in k], "jointype": g.pick(["inner", "left"]), "check": g.pick([True, "by"])})
     return {"tables": case["tables"], "table": tname, "steps": steps, "expr_mode": "text"}
 
 
